@@ -166,6 +166,13 @@ class Marker:
         return f"<{self.name}>"
 
 
+class Contraction:
+    """the value of ``tn ^ all`` / ``tn ^ ...``: remembers the layers of the network that was contracted"""
+
+    def __init__(self, net, layers):
+        self.net, self.layers = net, layers
+
+
 ALL = Marker("all")
 OR_ = Marker("operator.or_")
 
@@ -434,7 +441,7 @@ class LabelContract(Contract):
             if op == "BitXor" and is_tn(x):
                 if isinstance(node, ast.AugAssign):
                     return x  # contracting the tensors of a tag renames no outer label
-                return NS(contracted=x, what=y, layers=cx.fields(x)["layers"])
+                return Contraction(x, cx.fields(x)["layers"])  # tn ^ all, tn ^ ... : full contraction
             if op == "RShift" and is_tn(x) and isinstance(node, ast.AugAssign):
                 return x  # cumulative contraction
             return NotImplemented
@@ -1200,13 +1207,6 @@ class OperatorApply(LabelContract):
 # ------------------------------------------------------------------------------------------------------------
 
 
-class Contraction:
-    """the value of ``tn ^ all`` / ``tn ^ ...``: remembers the layers of the network that was contracted"""
-
-    def __init__(self, net, layers):
-        self.net, self.layers = net, layers
-
-
 def join_ok(la, lega, lb, legb):
     """the two legs carry the same label wherever both layers have a tensor"""
     return Implies(And(la.present, lb.present), la.slot(lega) == lb.slot(legb))
@@ -1650,3 +1650,1264 @@ class PartialTraceToMPO(OneD):
             d["sites-keep-their-numbers"] = "renumbered_by" not in R
             d["length-kept"] = R["L"] == P["L"]
         return d
+
+
+# ------------------------------------------------------------------------------------------------------------
+# C13: the exact reduced density matrix / local expectation of TensorNetworkGenVector
+# ------------------------------------------------------------------------------------------------------------
+# label level: a label is a term of sort Lab; fmt(id, site) = id.format(site); mangle(l) = l + mangle_append.
+
+Lab = z3.DeclareSort("Label")
+fmt = z3.Function("fmt", Id, z3.IntSort(), Lab)
+mangle = z3.Function("mangle", Lab, Lab)
+
+
+class LabV:
+    """a single label"""
+
+    def __init__(self, z):
+        self.z = z
+
+
+class BoundMethod:
+    def __init__(self, name, of):
+        self.name, self.of = name, of
+
+
+class WSeq:
+    """the sequence ``where`` of sites: length n, j-th site at(j)"""
+
+    def __init__(self, n, at, note="where"):
+        self.n, self.at, self.note = n, at, note
+
+
+class LabSeq:
+    """(id.format(w) for w in over)"""
+
+    def __init__(self, fam, over):
+        self.fam, self.over = fam, over
+
+    @property
+    def parts(self):
+        return (self,)
+
+
+class LabCat:
+    def __init__(self, parts):
+        self.parts = tuple(parts)
+
+
+def seq_eq(a, b):
+    """two label sequences are equal (same ids over the same site sequence, part by part)"""
+    pa, pb = getattr(a, "parts", None), getattr(b, "parts", None)
+    if pa is None or pb is None or len(pa) != len(pb):
+        return False
+    if any(x.over is not y.over for x, y in zip(pa, pb)):
+        return False
+    return And(*[x.fam == y.fam for x, y in zip(pa, pb)])
+
+
+class RDMNet:
+    """the value of make_reduced_density_matrix(where, bra_ind_id) of ``src``"""
+
+    def __init__(self, src, where, bra_id):
+        self.src, self.where, self.bra_id = src, where, bra_id
+
+
+class RhoVal:
+    """rho as tensor / array / fused matrix.  ``axes``: label sequence of the axes (tensor, array) or (rows, cols) (matrix);
+    ``times_normalised``: how often it has been divided by its trace"""
+
+    def __init__(self, form, axes, net, times_normalised=0):
+        self.form, self.axes, self.net, self.times_normalised = form, axes, net, times_normalised
+
+
+class NFactor:
+    """trace of the fused matrix of ``of`` (a RhoVal) -- or its reciprocal"""
+
+    def __init__(self, of, inverse=False):
+        self.of, self.inverse = of, inverse
+
+
+class RehearseInfo:
+    def __init__(self, tn, output_inds):
+        self.tn, self.output_inds = tn, output_inds
+
+
+class ExactContract(LabelContract):
+    property_ids = ("C13",)
+    methods = dict(LabelContract.methods,
+                   make_reduced_density_matrix=f"{TNAG}::TensorNetworkGenVector.make_reduced_density_matrix",
+                   partial_trace_exact=f"{TNAG}::TensorNetworkGenVector.partial_trace_exact")
+
+    def wseq(self, cx, where):
+        """the site sequence denoted by ``where`` (a WSeq, or the python tuple (site,) of the single-site form)"""
+        if isinstance(where, WSeq):
+            return where
+        if isinstance(where, tuple) and len(where) == 1 and is_int(where[0]):
+            cache = cx.ghost.setdefault("wseq1", {})
+            key = str(where[0])
+            if key not in cache:
+                w0 = where[0]
+                cache[key] = WSeq(1, lambda j, w0=w0: w0, "(where,)")
+            return cache[key]
+        raise Unsupported(f"where = {where!r}")
+
+    def attr(self, cx, base, attr, node):
+        if is_tn(base) and attr == "site_ind":
+            return BoundMethod("site_ind", cx.fields(base)["_site_ind_id"])
+        if (isinstance(base, str) or is_id(base)) and attr == "format":
+            return BoundMethod("format", as_id(cx, base))
+        if isinstance(base, RhoVal):
+            if attr == "data" and base.form == "tensor":
+                return RhoVal("array", base.axes, base.net, base.times_normalised)
+            if attr == "shape":
+                return NS(shape_of=base)
+        return super().attr(cx, base, attr, node)
+
+    def call(self, cx, name, args, kwargs, node):
+        if name == "map" and isinstance(args[0], BoundMethod):
+            return LabSeq(args[0].of, self.wseq(cx, args[1]))
+        if name == "tuple" and len(args) == 1 and isinstance(args[0], (LabSeq, LabCat)):
+            return args[0]
+        if name == "__tuple__":
+            parts = []
+            for kind, v in args[0]:
+                if kind != "star" or not isinstance(v, (LabSeq, LabCat)):
+                    raise Unsupported("tuple display mixing labels with other values")
+                parts.extend(v.parts)
+            return LabCat(parts)
+        if name == "__binop__":
+            op, x, y = args
+            if op == "Add" and isinstance(x, (LabSeq, LabCat)) and isinstance(y, (LabSeq, LabCat)):
+                return LabCat(x.parts + y.parts)
+            if op == "Div" and isinstance(x, RhoVal) and isinstance(y, NFactor) and not y.inverse:
+                cx.oblige(f"normalise@{node.lineno}:factor-is-the-trace-of-this-rho", "call-pre",
+                          y.of.net is x.net and y.of.times_normalised == 0, node.lineno)
+                return RhoVal(x.form, x.axes, x.net, x.times_normalised + 1)
+            if op == "Div" and x == 1 and isinstance(y, NFactor) and not y.inverse:
+                return NFactor(y.of, inverse=True)
+        if name == "_handle_rehearse":
+            return RehearseInfo(args[1], kwargs.get("output_inds"))
+        if name == "do":
+            if args[0] == "trace" and isinstance(args[1], RhoVal) and args[1].form == "matrix":
+                return NFactor(args[1])
+        if name == ".contract" and isinstance(args[0], RDMNet):
+            # leaf: exact contraction to a tensor whose axes are ``output_inds`` in the given order
+            return RhoVal("tensor", kwargs["output_inds"], args[0])
+        if name == ".to_dense" and isinstance(args[0], RhoVal) and args[0].form == "tensor" and len(args) == 3:
+            # leaf Tensor.to_dense(rows, cols): fuses the labels of ``rows`` into the row index, ``cols`` into the column
+            t = args[0]
+            cx.oblige(f"to_dense@{node.lineno}:groups-cover-the-axes-of-the-tensor", "call-pre",
+                      seq_eq(LabCat(args[1].parts + args[2].parts), t.axes), node.lineno)
+            return RhoVal("matrix", (args[1], args[2]), t.net, t.times_normalised)
+        if name == ".multiply_" and isinstance(args[0], RhoVal) and isinstance(args[1], NFactor) and args[1].inverse:
+            t, f = args[0], args[1]
+            cx.oblige(f"normalise@{node.lineno}:factor-is-the-trace-of-this-rho", "call-pre",
+                      f.of.net is t.net and f.of.times_normalised == 0, node.lineno)
+            t.times_normalised += 1
+            return t
+        return super().call(cx, name, args, kwargs, node)
+
+    def tn_method(self, cx, m, tn, args, kwargs, node):
+        if m == "has_site":
+            w = args[0]
+            if isinstance(w, WSeq) or isinstance(w, tuple):
+                return False
+            if is_int(w):
+                return True
+            raise Unsupported(f"has_site({w!r})")
+        return super().tn_method(cx, m, tn, args, kwargs, node)
+
+
+def mk_where(cx, kind):
+    if kind == "single":
+        return cx.Int("where_site")
+    n = cx.Int("ng")
+    cx.assume(n >= 1)
+    return WSeq(n, z3.Function("where_at", z3.IntSort(), z3.IntSort()))
+
+
+class RMapL:
+    """reindex_map seen from the skolem label: is it a key, and what is its image"""
+
+    def __init__(self, has, val):
+        self.has, self.val = has, val
+
+
+class PSet:
+    """phys_inds seen from the skolem label"""
+
+    def __init__(self, has):
+        self.has = has
+
+
+class WSet:
+    """set(where): membership predicate on sites"""
+
+    def __init__(self, member):
+        self.member = member
+
+
+@register
+class MakeRDM(ExactContract):
+    """make_reduced_density_matrix(where, allow_dangling, bra_ind_id, mangle_append): for an ARBITRARY label l of the state:
+       physical, site kept      -> ket keeps l,   bra gets bra_ind_id.format(site)
+       physical, site not kept  -> ket and bra both keep l (traced)
+       dangling & allow_dangling-> both keep l
+       any other label          -> ket keeps l,   bra gets l + mangle_append   (nothing else is shared)
+    and the bra layer is the conjugate of the (untouched) state"""
+
+    target = f"{TNAG}::TensorNetworkGenVector.make_reduced_density_matrix"
+    floor = 40
+
+    ELL = z3.Const("l!skolem", Lab)                 # the skolem label
+    IS_PHYS = z3.Bool("l!is_physical")               # l is site_ind(C) for the site C at position IDX of gen_site_coos
+    C, IDX, JDX = z3.Int("l!site"), z3.Int("l!site_pos"), z3.Int("l!ind_map_pos")
+    site_at = z3.Function("site_at", z3.IntSort(), z3.IntSort())
+    ix_at = z3.Function("ix_at", z3.IntSort(), Lab)
+    ntids = z3.Function("ntids", Lab, z3.IntSort())
+    inwhere = z3.Function("in_where", z3.IntSort(), z3.BoolSort())
+    in_phys_other = z3.Function("in_phys_inds", Lab, z3.BoolSort())
+
+    def cases(self):
+        return [NS(name=f"where={w},allow_dangling={d},layer_tags={t}", where=w, dangling=d, tags=t)
+                for w in ("single", "seq") for d in (True, False) for t in (True, False)]
+
+    def case_of_call(self, cx, a):
+        return NS(name="call", where="single" if is_int(a.where) else "seq", dangling=a.allow_dangling, tags=True)
+
+    def mk_inputs(self, cx, case):
+        psi = new_vec(cx, "psi")
+        cx.ghost["n_sites"], cx.ghost["n_inds"] = cx.Int("n_sites"), cx.Int("n_inds")
+        cx.assume(And(cx.ghost["n_sites"] >= 0, cx.ghost["n_inds"] >= 1))
+        sid = cx.fields(psi)["_site_ind_id"]
+        # definition of the skolem label: a label of the network, at position JDX of ind_map; physical iff it is the
+        # site label of the site C which sits at position IDX of gen_site_coos
+        cx.assume(And(0 <= self.JDX, self.JDX < cx.ghost["n_inds"], self.ix_at(self.JDX) == self.ELL))
+        cx.assume(Implies(self.IS_PHYS, And(self.ELL == fmt(sid, self.C), 0 <= self.IDX, self.IDX < cx.ghost["n_sites"],
+                                            self.site_at(self.IDX) == self.C)))
+        return with_cx(cx, dict(self=psi, where=mk_where(cx, case.where), allow_dangling=case.dangling,
+                                bra_ind_id=mk_id(cx, "bra_id"), mangle_append="*",
+                                layer_tags=("KET", "BRA") if case.tags else ()))
+
+    def requires_cx(self, cx, a, case):
+        return {"is-vector": cx.pre(a.self)["cls"] == "vec"}
+
+    # ---- skolem facts (definitional): the t-th site / the t-th key of ind_map is the skolem one iff t is its position
+    def site_facts(self, v):
+        sid = v.cx.pre(v.old.self)["_site_ind_id"]
+        t = v._it0
+        return [Implies(self.IS_PHYS, (fmt(sid, self.site_at(t)) == self.ELL) == (t == self.IDX)),
+                Implies(Not(self.IS_PHYS), fmt(sid, self.site_at(t)) != self.ELL)]
+
+    def ind_facts(self, v):
+        t = v._it1
+        return [(self.ix_at(t) == self.ELL) == (t == self.JDX)]
+
+    def member(self, a):
+        """site in set(where)"""
+        if is_int(a.where):
+            return lambda c: c == a.where
+        return lambda c: self.inwhere(c)
+
+    def inv_sites(self, v):
+        cx, a = v.cx, v.old
+        rm, ps = self.as_rmap(v.reindex_map), v.phys_inds
+        t = v._it0
+        done = And(self.IS_PHYS, self.IDX < t)
+        d = {"phys_inds-holds-the-site-labels-seen-so-far": ps.has == done,
+             "kept-sites-seen-so-far-are-mapped": rm.has == And(done, self.member(a)(self.C)),
+             "...to-their-bra-label": Implies(rm.has, rm.val == fmt(as_id(cx, a.bra_ind_id), self.C))}
+        d.update(self.frame_inv("loop0")(v))
+        return d
+
+    def inv_inds(self, v):
+        cx, a = v.cx, v.old
+        rm, ps = self.as_rmap(v.reindex_map), v.phys_inds
+        t = v._it1
+        dangling_ok = And(self.ntids(self.ELL) == 1, a.allow_dangling)
+        d = {"phys_inds-complete": ps.has == self.IS_PHYS,
+                "physical:kept-iff-mapped-to-bra-label": Implies(self.IS_PHYS, And(
+                    rm.has == self.member(a)(self.C), Implies(rm.has, rm.val == fmt(as_id(cx, a.bra_ind_id), self.C)))),
+                "other:mangled-once-seen-unless-allowed-dangling": Implies(Not(self.IS_PHYS), And(
+                    rm.has == And(self.JDX < t, Not(dangling_ok)), Implies(rm.has, rm.val == mangle(self.ELL))))}
+        d.update(self.frame_inv("loop1")(v))
+        return d
+
+    @staticmethod
+    def as_rmap(v):
+        if isinstance(v, RMapL):
+            return v
+        if isinstance(v, dict) and not v:
+            return RMapL(z3.BoolVal(False), MakeRDM.ELL)
+        raise Unsupported(f"reindex_map = {v!r}")
+
+    @property
+    def loops(self):
+        hv_rm = lambda cx: RMapL(cx.Bool("rm_has"), z3.Const(cx._name("rm_val"), Lab))
+        hv_ps = lambda cx: PSet(cx.Bool("ps_has"))
+        return {0: Loop("for coo in self.gen_site_coos()", self.inv_sites, facts=self.site_facts,
+                        extra_modifies=("reindex_map", "phys_inds"), retype={"reindex_map": hv_rm, "phys_inds": hv_ps}),
+                1: Loop("for (ix, tids) in self.ind_map.items()", self.inv_inds, facts=self.ind_facts,
+                        extra_modifies=("reindex_map", "phys_inds"), retype={"reindex_map": hv_rm, "phys_inds": hv_ps})}
+
+    def attr(self, cx, base, attr, node):
+        if is_tn(base) and attr == "ind_map":
+            return Marker("ind_map")
+        return super().attr(cx, base, attr, node)
+
+    def call(self, cx, name, args, kwargs, node):
+        if name == "set":
+            if not args:
+                return PSet(z3.BoolVal(False))
+            w = args[0]
+            if isinstance(w, tuple) and len(w) == 1:
+                return WSet(lambda c, w0=w[0]: c == w0)
+            if isinstance(w, WSeq):
+                return WSet(lambda c: self.inwhere(c))
+            raise Unsupported(f"set({w!r})")
+        if name == "__contains__":
+            cont, x = args
+            if isinstance(cont, WSet):
+                return cont.member(x)
+            if isinstance(cont, PSet) and isinstance(x, LabV):
+                return If(x.z == self.ELL, cont.has, self.in_phys_other(x.z))
+        if name == ".add" and isinstance(args[0], PSet):
+            args[0].has = Or(args[0].has, args[1].z == self.ELL)
+            return None
+        if name == "__setitem__" and isinstance(args[0], RMapL):
+            m, k, v = args
+            if not (isinstance(k, LabV) and isinstance(v, LabV)):
+                raise Unsupported("reindex_map entry that is not label -> label")
+            hit = k.z == self.ELL
+            m.has, m.val = Or(m.has, hit), If(hit, v.z, m.val)
+            return None
+        if name == ".format" and (is_id(args[0]) or isinstance(args[0], str)) and len(args) == 2 and is_int(args[1]):
+            return LabV(fmt(as_id(cx, args[0]), args[1]))
+        if name == ".items" and isinstance(args[0], Marker) and args[0].name == "ind_map":
+            return SymIter(cx.ghost["n_inds"], lambda t: (LabV(self.ix_at(t)), NS(tids_of=self.ix_at(t))))
+        if name == "len" and isinstance(args[0], NS) and "tids_of" in args[0]:
+            return self.ntids(args[0].tids_of)
+        if name == "__binop__" and args[0] == "Add" and isinstance(args[1], LabV) and isinstance(args[2], str):
+            return LabV(mangle(args[1].z))
+        if name == "__iter__" and isinstance(args[0], Marker) and args[0].name == "site_coos":
+            return (cx.ghost["n_sites"], lambda t: self.site_at(t))
+        return super().call(cx, name, args, kwargs, node)
+
+    def tn_method(self, cx, m, tn, args, kwargs, node):
+        f = cx.fields(tn)
+        if m == "gen_site_coos":
+            return Marker("site_coos")
+        if m == "site_ind" and is_int(args[0]):
+            return LabV(fmt(f["_site_ind_id"], args[0]))
+        if m == "reindex" and isinstance(args[0], (RMapL, dict)):
+            # leaf reindex at the label level: the skolem label becomes its image if it is a key
+            if kwargs.get("inplace", False):
+                raise Unsupported("in place reindex of the state")
+            rm = self.as_rmap(args[0])
+            r = copy_obj(cx, tn)
+            cx.fields(r)["img"] = If(rm.has, rm.val, cx.fields(tn).get("img", self.ELL))
+            return r
+        if m == "combine" and is_tn(args[0]):
+            fa, fb = f, cx.fields(args[0])
+            return cx.new_obj("TN", cls="plain", cyclic=fa["cyclic"], L=fa["L"],
+                              layers=fa["layers"] + fb["layers"], imgs=(fa.get("img", self.ELL), fb.get("img", self.ELL)),
+                              opts=dict(kwargs))
+        return super().tn_method(cx, m, tn, args, kwargs, node)
+
+    def apply(self, cx, a, node, case=None):
+        """callee use: the value 'reduced density matrix network of (self, where, bra_ind_id)'"""
+        for lab, c in self.requires_at(cx, a, self.case_of_call(cx, a)).items():
+            cx.oblige(f"call-pre@{node.lineno}:make_reduced_density_matrix:{lab}", "call-pre", c, node.lineno)
+        return RDMNet(a.self, a.where, as_id(cx, a.bra_ind_id))
+
+    def ensures(self, a, r, cx, case):
+        d = {"result-is-network": is_tn(r) and "imgs" in cx.fields(r)}
+        if not d["result-is-network"]:
+            return d
+        P, R = cx.pre(a.self), cx.fields(r)
+        psi = P["layers"][0]
+        d["psi-untouched"] = And(same_state(cx.fields(a.self), P), "img" not in cx.fields(a.self))
+        d["result-is-(ket,bra)"] = len(R["layers"]) == 2 and And(
+            R["layers"][0].conj == psi.conj, R["layers"][1].conj == Not(psi.conj),
+            R["layers"][0].present == psi.present, R["layers"][1].present == psi.present)
+        ket, bra = R["imgs"]
+        kept = self.member(a)(self.C)
+        dangling_ok = And(self.ntids(self.ELL) == 1, a.allow_dangling)
+        bra_id = as_id(cx, a.bra_ind_id)
+        d["ket-keeps-every-label"] = ket == self.ELL
+        d["kept-site:bra-gets-the-bra-label"] = Implies(And(self.IS_PHYS, kept), bra == fmt(bra_id, self.C))
+        d["traced-site:bra-shares-the-label"] = Implies(And(self.IS_PHYS, Not(kept)), bra == self.ELL)
+        d["allowed-dangling-label-left-alone"] = Implies(And(Not(self.IS_PHYS), dangling_ok), bra == self.ELL)
+        d["every-other-label-mangled-on-the-bra-only"] = Implies(And(Not(self.IS_PHYS), Not(dangling_ok)),
+                                                                 bra == mangle(self.ELL))
+        d["virtual-combination-without-second-mangling"] = R["opts"].get("check_collisions") is False
+        return d
+
+
+@register
+class PartialTraceExact(ExactContract):
+    """partial_trace_exact(where, normalized, get): rho with axes (*k, *b) in the order of ``where`` (matrix form: rows = the
+    ket labels k, columns = the bra labels b), built from the reduced-density-matrix network of the SAME where / bra id;
+    divided by its trace exactly once iff normalized is True; normalized='return' gives (unnormalised rho, trace)"""
+
+    target = f"{TNAG}::TensorNetworkGenVector.partial_trace_exact"
+    floor = 80
+    BRA = "_bra{}"
+
+    def cases(self):
+        return [NS(name=f"where={w},normalized={nz},rehearse={rh},get={g}", where=w, normalized=nz, rehearse=rh, get=g)
+                for w in ("single", "seq") for nz in (True, False, "return") for rh in (False, True)
+                for g in ("matrix", "array", "tensor", "other") if not (rh and g != "matrix")]
+
+    def case_of_call(self, cx, a):
+        if not isinstance(a.get, str) or not isinstance(a.rehearse, bool) or is_z3(a.normalized):
+            raise Unsupported("symbolic get / rehearse / normalized")
+        return NS(name="call", where="single" if is_int(a.where) else "seq", normalized=a.normalized,
+                  rehearse=a.rehearse, get=a.get)
+
+    def mk_inputs(self, cx, case):
+        return with_cx(cx, dict(self=new_vec(cx, "psi"), where=mk_where(cx, case.where), optimize="auto-hq",
+                                normalized=case.normalized, rehearse=case.rehearse, get=case.get, contract_opts={}))
+
+    def requires_cx(self, cx, a, case):
+        return {"is-vector": cx.pre(a.self)["cls"] == "vec"}
+
+    def expected_axes(self, cx, a):
+        W = self.wseq(cx, (a.where,) if is_int(a.where) else a.where)
+        sid = cx.pre(a.self)["_site_ind_id"]
+        return LabSeq(sid, W), LabSeq(lit(self.BRA), W)
+
+    def apply(self, cx, a, node, case=None):
+        case = case or self.case_of_call(cx, a)
+        for lab, c in self.requires_at(cx, a, case).items():
+            cx.oblige(f"call-pre@{node.lineno}:partial_trace_exact:{lab}", "call-pre", c, node.lineno)
+        saved, cx.pre_heap = cx.pre_heap, cx.heap
+        try:
+            k, b = self.expected_axes(cx, a)
+        finally:
+            cx.pre_heap = saved
+        net = RDMNet(a.self, a.where, lit(self.BRA))
+        if case.rehearse:
+            return RehearseInfo(net, LabCat((k, b)))
+        if case.get not in ("matrix", "array", "tensor"):
+            raise PyRaise("ValueError", node.lineno)
+        axes = (k, b) if case.get == "matrix" else LabCat((k, b))
+        rho = RhoVal(case.get, axes, net, 1 if case.normalized is True else 0)
+        if case.normalized == "return":
+            return (rho, NFactor(RhoVal("matrix", (k, b), net, 0)))
+        return rho
+
+    def ensures_raise(self, a, exc, cx, case):
+        if exc == "ValueError":
+            return {"raise-only-for-unknown-get": case.get not in ("matrix", "array", "tensor") and not case.rehearse}
+        return {f"no-raise-{exc}": False}
+
+    def ensures(self, a, r, cx, case):
+        k, b = self.expected_axes(cx, a)
+        if case.rehearse:
+            d = {"rehearsal-info-returned": isinstance(r, RehearseInfo)}
+            if d["rehearsal-info-returned"]:
+                d["rehearsed-output-is-(*k,*b)-in-order-of-where"] = seq_eq(r.output_inds, LabCat((k, b)))
+                d["rehearsed-network-is-the-rdm-of-where"] = self.net_ok(cx, a, r.tn)
+            return d
+        if case.get not in ("matrix", "array", "tensor"):
+            return {"unknown-get-must-raise": False}
+        pair = case.normalized == "return"
+        d = {"result-shape": (isinstance(r, tuple) and len(r) == 2) if pair else isinstance(r, RhoVal)}
+        if not d["result-shape"]:
+            return d
+        rho = r[0] if pair else r
+        d["result-form"] = isinstance(rho, RhoVal) and rho.form == case.get
+        if not d["result-form"]:
+            return d
+        if case.get == "matrix":
+            d["rows-are-the-ket-labels-in-order-of-where"] = seq_eq(rho.axes[0], k)
+            d["columns-are-the-bra-labels-in-order-of-where"] = seq_eq(rho.axes[1], b)
+        else:
+            d["axes-are-(*k,*b)-in-order-of-where"] = seq_eq(rho.axes, LabCat((k, b)))
+        d["built-from-the-rdm-network-of-the-same-where-and-bra-id"] = self.net_ok(cx, a, rho.net)
+        d["normalisation-applied-exactly-once-iff-normalized-is-True"] = \
+            rho.times_normalised == (1 if case.normalized is True else 0)
+        if pair:
+            f = r[1]
+            d["returned-factor-is-the-trace-of-the-unnormalised-rho"] = isinstance(f, NFactor) and not f.inverse and \
+                f.of.net is rho.net and f.of.times_normalised == 0 and f.of.form == "matrix" and \
+                And(seq_eq(f.of.axes[0], k), seq_eq(f.of.axes[1], b))
+        return d
+
+    def net_ok(self, cx, a, net):
+        if not isinstance(net, RDMNet) or net.src != a.self:
+            return False
+        same_where = (net.where is a.where) or (is_int(a.where) and isinstance(net.where, tuple) and
+                                                 len(net.where) == 1 and net.where[0] is a.where)
+        return And(same_where, net.bra_id == lit(self.BRA))
+
+
+class GVal:
+    """the local operator: 'matrix' (D x D) or 'tensor' form (row index of site j on axis j, column index on axis ng+j)"""
+
+    def __init__(self, form, ng):
+        self.form, self.ng = form, ng
+
+
+class IntSeq:
+    """a tuple of ints of symbolic length: j -> elem(j)"""
+
+    def __init__(self, n, elem):
+        self.n, self.elem = n, elem
+
+
+class ExpecVal:
+    def __init__(self, rho):
+        self.rho = rho
+
+
+@register
+class LocalExpectationExact(ExactContract):
+    """local_expectation_exact(G, where, normalized): sum_{k,b} rho[k,b] G[b,k] for EVERY number of sites ng = len(where):
+    every axis of rho is paired exactly once, the ket axis of site j (axis j) with the COLUMN axis of G (ng+j) and the bra
+    axis (ng+j) with the ROW axis j; normalised iff normalized is True; 'return' gives (value, trace)"""
+
+    target = f"{TNAG}::TensorNetworkGenVector.local_expectation_exact"
+    floor = 20
+    J = z3.Int("j!axis")  # skolem position in the axes tuples
+
+    def cases(self):
+        return [NS(name=f"G={g},normalized={nz},rehearse={rh}", g=g, normalized=nz, rehearse=rh)
+                for g in ("matrix", "tensor") for nz in (True, False, "return") for rh in (False, True)]
+
+    def mk_inputs(self, cx, case):
+        where = mk_where(cx, "seq")
+        return with_cx(cx, dict(self=new_vec(cx, "psi"), G=GVal(case.g, where.n), where=where, optimize="auto-hq",
+                                normalized=case.normalized, rehearse=case.rehearse, contract_opts={}))
+
+    def requires_cx(self, cx, a, case):
+        return {"is-vector": cx.pre(a.self)["cls"] == "vec"}
+
+    def call(self, cx, name, args, kwargs, node):
+        if name == "len" and isinstance(args[0], WSeq):
+            return args[0].n
+        if name == "__unpack__" and isinstance(args[0], (RhoVal, ExpecVal)):
+            raise PyRaise("ValueError", getattr(node, "lineno", 0))  # an array is not a (value, factor) pair
+        if name == "__getslice__" and isinstance(args[0], WSeq):
+            w, lo, hi, st = args
+            if lo is None and hi is None and st == -1:
+                return WSeq(w.n, lambda j, w=w: w.at(w.n - 1 - j), "reversed " + w.note)
+            raise Unsupported("slice of where")
+        if name == "do":
+            if args[0] == "ndim" and isinstance(args[1], GVal):
+                return 2 if args[1].form == "matrix" else 2 * args[1].ng
+            if args[0] == "reshape" and isinstance(args[1], GVal) and isinstance(args[2], NS) and "shape_of" in args[2]:
+                # leaf: C-order reshape of the D x D matrix to the shape of rho (d_k.., d_b..): rows -> the first ng
+                # axes, columns -> the last ng (the dimensions of the k and b axes agree site by site)
+                rho = args[2].shape_of
+                ok = rho.form in ("array", "tensor") and len(rho.axes.parts) == 2 and \
+                    rho.axes.parts[0].over is rho.axes.parts[1].over
+                cx.oblige(f"reshape@{node.lineno}:target-shape-is-that-of-(*k,*b)", "call-pre", ok, node.lineno)
+                return GVal("tensor", rho.axes.parts[0].over.n) if ok else GVal("matrix", args[1].ng)
+            if args[0] == "tensordot":
+                return self.leaf_tensordot(cx, args[1], args[2], kwargs["axes"], node)
+        if name == "range":
+            return ("irange",) + tuple(args)
+        if name == "tuple" and isinstance(args[0], tuple) and args[0] and args[0][0] == "irange":
+            ra = args[0][1:]
+            lo, hi = (0, ra[0]) if len(ra) == 1 else (ra[0], ra[1])
+            return IntSeq(hi - lo, lambda j, lo=lo: lo + j)
+        if name == "__binop__" and args[0] == "Add" and isinstance(args[1], IntSeq) and isinstance(args[2], IntSeq):
+            x, y = args[1], args[2]
+            return IntSeq(x.n + y.n, lambda j, x=x, y=y: If(j < x.n, x.elem(j), y.elem(j - x.n)))
+        return super().call(cx, name, args, kwargs, node)
+
+    def leaf_tensordot(self, cx, rho, G, axes, node):
+        """leaf tensordot(rho, G, axes=(A, B)): sums over the pairs (axis A[j] of rho, axis B[j] of G)"""
+        ok = isinstance(rho, RhoVal) and rho.form == "array" and isinstance(G, GVal) and \
+            isinstance(axes, tuple) and len(axes) == 2 and all(isinstance(x, IntSeq) for x in axes)
+        cx.oblige(f"tensordot@{node.lineno}:operands-are-(rho-array,G)", "call-pre", ok, node.lineno)
+        if not ok:
+            return cx.Opaque("tensordot")
+        A, B = axes
+        ng = rho.axes.parts[0].over.n
+        # a D x D matrix IS the tensor form when there is a single site
+        cx.oblige(f"tensordot@{node.lineno}:G-is-in-tensor-form", "call-pre", True if G.form == "tensor" else G.ng == 1,
+                  node.lineno)
+        j = self.J
+        cx.oblige(f"tensordot@{node.lineno}:G-has-one-row-and-one-column-axis-per-site", "call-pre", G.ng == ng, node.lineno)
+        cx.oblige(f"tensordot@{node.lineno}:all-2ng-axes-are-summed", "call-pre", And(A.n == 2 * ng, B.n == 2 * ng),
+                  node.lineno)
+        inr = And(0 <= j, j < 2 * ng)
+        cx.oblige(f"tensordot@{node.lineno}:every-axis-of-rho-exactly-once", "call-pre", Implies(inr, A.elem(j) == j),
+                  node.lineno)
+        a, g = A.elem(j), B.elem(j)
+        cx.oblige(f"tensordot@{node.lineno}:pairing-is-sum-rho[k,b]G[b,k]", "call-pre",
+                  Implies(inr, If(a < ng, g == a + ng, g == a - ng)), node.lineno)
+        return ExpecVal(rho)
+
+    def ensures(self, a, r, cx, case):
+        if case.rehearse:
+            return {"rehearsal-info-returned-immediately": isinstance(r, RehearseInfo)}
+        pair = case.normalized == "return"
+        d = {"result-shape": (isinstance(r, tuple) and len(r) == 2) if pair else isinstance(r, ExpecVal)}
+        if not d["result-shape"]:
+            return d
+        e = r[0] if pair else r
+        d["value-is-a-contraction-of-rho-with-G"] = isinstance(e, ExpecVal)
+        if not isinstance(e, ExpecVal):
+            return d
+        d["rho-is-the-exact-rdm-of-the-same-where"] = isinstance(e.rho.net, RDMNet) and e.rho.net.src == a.self and \
+            e.rho.net.where is a.where
+        d["normalised-exactly-once-iff-normalized-is-True"] = e.rho.times_normalised == (1 if case.normalized is True else 0)
+        if pair:
+            d["returned-factor-is-the-trace-of-rho"] = isinstance(r[1], NFactor) and not r[1].inverse and \
+                r[1].of.net is e.rho.net
+        return d
+
+
+# ------------------------------------------------------------------------------------------------------------
+# C09: expec_TN_1D(bra, ops..., ket) and MatrixProductState.expec
+# ------------------------------------------------------------------------------------------------------------
+
+
+@register
+class ExpecTN1D(OneD):
+    """expec_TN_1D(*tns): the contracted network is the stack of (copies of) the arguments IN THE GIVEN ORDER, joined as
+    by tensor_network_align: the FIRST vector (bra position) on the UP leg of the first operator, ..., the LAST vector
+    (ket position) on the LO leg of the last operator; nothing is conjugated, the arguments are untouched"""
+
+    target = f"{TN1D}::expec_TN_1D"
+    floor = 60
+
+    def cases(self):
+        out = []
+        for kinds in ("vv", "vov", "voov", "vvv"):
+            for compress in (None, False, True):
+                out.append(NS(name=f"{kinds},compress={compress}", kinds=tuple(kinds), compress=compress))
+        return out
+
+    def case_of_call(self, cx, a):
+        if any(not is_tn(t) for t in a.tns):
+            raise Unsupported("expec_TN_1D on a collection of unknown size")
+        if is_z3(a.compress):
+            raise Unsupported("symbolic compress")
+        return NS(name="call", kinds=kinds_of(cx, a.tns), compress=a.compress)
+
+    def as_align(self, a):
+        return NS(tns=tuple(a.tns), ind_ids=None, trace=False, inplace=False)
+
+    def align_case(self, case):
+        return NS(name="call", kinds=case.kinds, ids="None", trace=False, inplace=False)
+
+    def mk_inputs(self, cx, case):
+        tns = tuple(new_vec(cx, f"t{i}") if k == "v" else new_op(cx, f"t{i}") for i, k in enumerate(case.kinds))
+        return with_cx(cx, dict(tns=tns, compress=case.compress, eps=cx.Real("eps")))
+
+    def requires_cx(self, cx, a, case):
+        d = ALIGN.requires_cx(cx, self.as_align(a), self.align_case(case))
+        first = cx.pre(a.tns[0])
+        n = len(a.tns)
+        if first["cls"] == "vec":
+            # levels 1.. are the literals "__ind_a{}__", ...: a first network that already uses one of the LATER ones
+            # gives a label carried by four legs (native: ValueError 'appears more than twice')
+            d["first-id-is-not-a-later-generated-level-id"] = And(*[first["_site_ind_id"] != gen_level(j)
+                                                                    for j in range(1, n - 2)])
+        d["starts-and-ends-with-a-vector"] = case.kinds[0] == "v" and case.kinds[-1] == "v"
+        return d
+
+    def call(self, cx, name, args, kwargs, node):
+        if name == "functools.reduce" and args[0] is OR_:
+            xs = list(args[1])
+            r = xs[0]
+            for x in xs[1:]:
+                r = combined(cx, r, x)
+            return r
+        if name == "__isinstance__" and args[1] == "TensorNetwork1DFlat" and is_tn(args[0]):
+            return cx.Bool(f"isflat{args[0].oid}")
+        if name == "qu.prod":
+            return cx.Int("total_bd")
+        return super().call(cx, name, args, kwargs, node)
+
+    def fresh_result(self, cx, a, case):
+        if Align.middle_vector(case.kinds):
+            raise PyRaise("ValueError")
+        lays = tuple(fresh_like(cx, cx.pre(t), f"ex{i}")["layers"][0] for i, t in enumerate(a.tns))
+        return Contraction(None, lays)
+
+    def ensures_raise(self, a, exc, cx, case):
+        if exc == "ValueError":
+            return {"raise-only-for-a-vector-in-the-middle": Align.middle_vector(case.kinds)}
+        return {f"no-raise-{exc}": False}
+
+    def ensures(self, a, r, cx, case):
+        if Align.middle_vector(case.kinds):
+            return {"vector-in-the-middle-must-raise": False}
+        d = {"result-is-a-full-contraction": isinstance(r, Contraction)}
+        if not isinstance(r, Contraction):
+            return d
+        P = [cx.pre(t) for t in a.tns]
+        d["contracted-network-is-the-arguments-in-the-given-order"] = len(r.layers) == len(P) and all(
+            l.origin == p["layers"][0].origin and l.roles == p["layers"][0].roles for l, p in zip(r.layers, P))
+        if not d["contracted-network-is-the-arguments-in-the-given-order"]:
+            return d
+        d["nothing-conjugated-nothing-dropped"] = And(*[And(l.conj == p["layers"][0].conj,
+                                                            l.present == p["layers"][0].present)
+                                                        for l, p in zip(r.layers, P)])
+        for i, t in enumerate(a.tns):
+            d[f"argument-{i}-untouched"] = same_state(cx.fields(t), P[i])
+        stack_posts(d, "expec", r.layers)
+        return d
+
+
+@register
+class MPSExpec(OneD):
+    """MatrixProductState.expec(*args) == expec_TN_1D(self, *args): the receiver is in the FIRST (bra) position"""
+
+    target = f"{TN1D}::TensorNetwork1DVector.expec"
+    floor = 20
+    EX = f"{TN1D}::expec_TN_1D"
+
+    def cases(self):
+        return [NS(name=f"{k}", kinds=tuple(k), compress=None) for k in ("vv", "vov", "voov")]
+
+    def mk_inputs(self, cx, case):
+        d = REGISTRY[self.EX].mk_inputs(cx, case)
+        return with_cx(cx, dict(self=d["tns"][0], args=tuple(d["tns"][1:]), kwargs={}))
+
+    def as_expec(self, a):
+        return NS(tns=(a.self,) + tuple(a.args), compress=a.kwargs.get("compress"), eps=a.kwargs.get("eps"))
+
+    def requires_cx(self, cx, a, case):
+        return REGISTRY[self.EX].requires_cx(cx, self.as_expec(a), case)
+
+    def ensures(self, a, r, cx, case):
+        return REGISTRY[self.EX].ensures(self.as_expec(a), r, cx, case)
+
+
+# ------------------------------------------------------------------------------------------------------------
+# C10: the local problems -- Heff[rows = BRA labels, columns = KET labels] is what reaches the eigensolver
+# ------------------------------------------------------------------------------------------------------------
+# Values: the labels / dimensions of the site tensors are sequences of ATOMS
+#   ("inds", net oid, site, excluded bond or None)  -- all labels of the tensor at `site`, in the tensor's axis order
+#   ("bond", net oid, i)                            -- the bond label between sites i and i+1
+
+
+class Handle:
+    """tn[i]: the tensor of a network at a site"""
+
+    def __init__(self, net, site):
+        self.net, self.site = net, site
+
+
+class IndsV:
+    def __init__(self, atoms):
+        self.atoms = tuple(atoms)
+
+
+class DimsV:
+    def __init__(self, atoms):
+        self.atoms = tuple(atoms)
+
+
+class ZipDI:
+    """zip(t.shape, t.inds) (possibly filtered)"""
+
+    def __init__(self, atom):
+        self.atom = atom
+
+
+def atom_eq(x, y):
+    if x is None or y is None:
+        return x is None and y is None
+    if x[0] != y[0] or x[1] != y[1]:
+        return False
+    c = (x[2] == y[2])
+    if isinstance(c, bool) and not c:
+        return False
+    if x[0] == "inds":
+        e = atom_eq(x[3], y[3])
+        return e if c is True else And(c, e)
+    return c
+
+
+def definitely(c):
+    return c is True or (is_z3(c) and z3.is_true(z3.simplify(c)))
+
+
+def atoms_eq(a, b):
+    a, b = getattr(a, "atoms", None), getattr(b, "atoms", None)
+    if a is None or b is None or len(a) != len(b):
+        return False
+    return And(*[atom_eq(x, y) for x, y in zip(a, b)])
+
+
+def owned_by(v, ref):
+    return isinstance(v, (IndsV, DimsV)) and len(v.atoms) > 0 and all(x[1] == ref.oid for x in v.atoms)
+
+
+def twin(v, frm, to):
+    """the same sequence of atoms on the other layer (bra <-> ket)"""
+    def tw(x):
+        if x is None:
+            return None
+        return (x[0], to.oid if x[1] == frm.oid else x[1], x[2]) + ((tw(x[3]),) if x[0] == "inds" else ())
+    return type(v)(tuple(tw(x) for x in v.atoms))
+
+
+class Dat:
+    """array data: ``base`` (opaque value), ``conj`` (element-wise conjugated), ``axes`` (IndsV the axes follow, or None)"""
+
+    def __init__(self, base, conj=False, axes=None, flat=False):
+        self.base, self.conj, self.axes, self.flat = base, conj, axes, flat
+
+
+class LocalOp:
+    """dense matrix / linear operator of an effective tensor: rows / cols are label sequences"""
+
+    def __init__(self, kind, rows, cols, form, ldims=None, rdims=None):
+        self.kind, self.rows, self.cols, self.form, self.ldims, self.rdims = kind, rows, cols, form, ldims, rdims
+
+
+class EffNet:
+    def __init__(self, kind, contracted=None):
+        self.kind, self.contracted = kind, contracted
+
+
+TAG_OF = {"ham": "_HAM", "norm": "_EYE"}
+
+
+class LocalContract(DMRGContract):
+    methods = dict(DMRGContract.methods)
+    dmrg_methods = {"form_local_ops": f"{DMRGF}::DMRG.form_local_ops"}
+
+    def new_solver(self, cx, **extra):
+        k = new_vec(cx, "k", conj=z3.BoolVal(False))
+        b = copy_obj(cx, k, flip=True)
+        f = dict(_k=k, _b=b, cyclic=cx.Bool("cyclic"), bsz=cx.Int("bsz"), L=cx.Int("L"), which="SA")
+        f.update(extra)
+        return cx.new_obj("DMRG", **f)
+
+    def data_of(self, cx, h):
+        """current data of a site tensor; class invariant of the solver: the bra tensor is the conjugate of the ket's"""
+        S = cx.fields(cx.env["self"])
+        store = cx.ghost.setdefault("data", {})
+        key = (h.net.oid, str(h.site))
+        if key not in store:
+            base = cx.Val(f"data_site_{h.site}")
+            store[(S["_k"].oid, str(h.site))] = Dat(base, False, IndsV([("inds", S["_k"].oid, h.site, None)]))
+            store[(S["_b"].oid, str(h.site))] = Dat(base, True, IndsV([("inds", S["_b"].oid, h.site, None)]))
+        return store[key]
+
+    def attr(self, cx, base, attr, node):
+        if isinstance(base, Handle):
+            atom = ("inds", base.net.oid, base.site, None)
+            if attr == "inds":
+                return IndsV([atom])
+            if attr == "shape":
+                return DimsV([atom])
+            if attr == "data":
+                return self.data_of(cx, base)
+        if isinstance(base, LocalOp) and attr == "shape":
+            return (cx.Opaque("n"), cx.Opaque("n"))
+        if isinstance(base, Opaque):
+            return cx.Opaque(attr)
+        return super().attr(cx, base, attr, node)
+
+    def call(self, cx, name, args, kwargs, node):
+        if name == "__getitem__" and is_tn(args[0]) and is_int(args[1]):
+            return Handle(args[0], args[1])
+        if name == "__getitem__" and isinstance(args[0], EffNet) and isinstance(args[1], str):
+            return EffNet(args[0].kind, args[0].contracted) if False else NS(eff_tensor=args[0], tag=args[1])
+        if name == "__getitem__" and isinstance(args[0], Opaque):
+            return cx.Opaque("item")
+        if name == "__getslice__" and is_tn(args[0]):
+            return cx.Opaque("section")
+        if name == "__binop__":
+            op, x, y = args
+            if op == "BitXor" and isinstance(x, EffNet):
+                return cx.Opaque("scalar") if (y is ALL or y is Ellipsis) else EffNet(x.kind, contracted=y)
+            if op == "Add" and isinstance(x, IndsV) and isinstance(y, IndsV):
+                return IndsV(x.atoms + y.atoms)
+            if op == "Add" and isinstance(x, DimsV) and isinstance(y, DimsV):
+                return DimsV(x.atoms + y.atoms)
+            if op == "Add" and isinstance(x, LocalOp):
+                return x  # + multiple of the identity: same rows / columns
+            if op == "Div" and isinstance(x, Dat) and isinstance(y, Opaque):
+                return Dat(cx.uf("scaled", [x.base, y.z]), x.conj, x.axes, x.flat)
+            if isinstance(x, Opaque) or isinstance(y, Opaque):
+                return cx.Opaque("scalar")
+        if name == "__tuple__":
+            atoms = []
+            for kind, v in args[0]:
+                if not isinstance(v, IndsV) or (kind == "item" and len(v.atoms) != 1):
+                    raise Unsupported("label tuple with a foreign element")
+                atoms.extend(v.atoms)
+            return IndsV(atoms)
+        if name == "abs":
+            return cx.Real("abs")
+        if name == "prod":
+            return cx.Int("prod_dims")
+        if name in ("np.fill_diagonal",):
+            return None
+        if name == "IdentityLinearOperator":
+            return Marker("identity")
+        if name == "TNLinearOperator":
+            t = args[0]
+            if not (isinstance(t, NS) and "eff_tensor" in t):
+                raise Unsupported("TNLinearOperator of an unknown network")
+            return LocalOp(t.eff_tensor.kind, kwargs.get("left_inds"), kwargs.get("right_inds"), "linop",
+                           kwargs.get("ldims"), kwargs.get("rdims"))
+        if name == ".to_dense" and isinstance(args[0], NS) and "eff_tensor" in args[0] and len(args) == 3:
+            e = args[0].eff_tensor
+            cx.oblige(f"to_dense@{node.lineno}:the-contracted-tensor-is-the-selected-one", "call-pre",
+                      e.contracted == args[0].tag == TAG_OF[e.kind], node.lineno)
+            return LocalOp(e.kind, args[1], args[2], "dense")
+        if name == ".diagonal" and isinstance(args[0], LocalOp):
+            return cx.Opaque("diag")
+        if name.startswith(".") and isinstance(args[0], Opaque):
+            return cx.Opaque(name[1:])
+        if name.startswith(".") and isinstance(args[0], Dat):
+            d = args[0]
+            if name == ".conj":
+                return Dat(d.base, not d.conj, d.axes, d.flat)
+            if name == ".ravel":
+                return Dat(d.base, d.conj, d.axes, True)
+            if name == ".toarray":
+                return d
+            if name == ".reshape" and isinstance(args[1], DimsV):
+                cx.oblige(f"reshape@{node.lineno}:dims-are-those-of-the-vector's-label-order", "call-pre",
+                          atoms_eq(args[1], d.axes) if d.axes is not None else False, node.lineno)
+                return Dat(d.base, d.conj, d.axes, False)
+        if name == ".modify" and isinstance(args[0], Handle):
+            h, data = args[0], kwargs.get("data")
+            if not isinstance(data, Dat):
+                raise Unsupported("modify with unknown data")
+            own = IndsV([("inds", h.net.oid, h.site, None)])
+            inds = kwargs.get("inds", own)
+            cx.events.append(("modify", h, data, inds))
+            cx.ghost.setdefault("data", {})[(h.net.oid, str(h.site))] = Dat(data.base, data.conj, inds)
+            return None
+        if name.startswith(".") and isinstance(args[0], Ref) and args[0].kind == "DMRG":
+            m = name[1:]
+            if m in ("ME_eff_ham", "ME_eff_norm", "ME_eff_ovlp", "ME_eff_ham2"):
+                return EffNet(m[len("ME_eff_"):])
+            if m == "_eigs":
+                return self.leaf_eigs(cx, args[0], args[1], kwargs.get("B"), kwargs.get("v0"), node)
+            if m == "post_check":
+                return (args[4], args[3])  # (loc_en, loc_gs): rescaling only
+            if m == "_canonize_after_1site_update":
+                return None
+            if m in self.dmrg_methods and self.dmrg_methods[m] != self.target:
+                return cx.call_contract(REGISTRY[self.dmrg_methods[m]], list(args[1:]), kwargs, node, recv=args[0])
+        return super().call(cx, name, args, kwargs, node)
+
+    def leaf_eigs(self, cx, solver, A, B, v0, node):
+        """leaf eigh(A, B=B, v0=v0): eigenvector of the matrix A (a column vector in A's COLUMN label order).  The
+        convention obligations of the property are stated here, where the operator leaves quimb's label world"""
+        S = cx.fields(solver)
+        ok = isinstance(A, LocalOp)
+        cx.oblige(f"eigs@{node.lineno}:operator-is-an-effective-hamiltonian", "call-pre", ok and A.kind == "ham", node.lineno)
+        if not ok:
+            return (cx.Opaque("en"), cx.Opaque("gs"))
+        cx.oblige(f"eigs@{node.lineno}:rows-are-the-BRA-labels", "call-pre", owned_by(A.rows, S["_b"]), node.lineno)
+        cx.oblige(f"eigs@{node.lineno}:columns-are-the-KET-labels", "call-pre", owned_by(A.cols, S["_k"]), node.lineno)
+        cx.oblige(f"eigs@{node.lineno}:rows-and-columns-correspond-leg-by-leg", "call-pre",
+                  atoms_eq(twin(A.rows, S["_b"], S["_k"]), A.cols) if isinstance(A.rows, IndsV) else False, node.lineno)
+        if isinstance(B, LocalOp):
+            cx.oblige(f"eigs@{node.lineno}:norm-operator-has-the-same-rows-and-columns", "call-pre",
+                      And(atoms_eq(B.rows, A.rows), atoms_eq(B.cols, A.cols), B.kind == "norm"), node.lineno)
+        if v0 is not None:
+            cx.oblige(f"eigs@{node.lineno}:initial-guess-is-ket-data-in-column-order", "call-pre",
+                      isinstance(v0, Dat) and not v0.conj and v0.axes is not None and atoms_eq(v0.axes, A.cols),
+                      node.lineno)
+        cx.events.append(("eigs", A, B, v0))
+        return (cx.Opaque("loc_en"), Dat(cx.Val("loc_gs"), False, A.cols, True))
+
+
+@register
+class FormLocalOps(LocalContract):
+    """DMRG.form_local_ops(i, dims, lix, uix): Heff (and Neff) with ROWS = lix and COLUMNS = uix, dense or as a linear
+    operator (left_inds = rows = lix, right_inds = columns = uix, both with dimensions dims)"""
+
+    target = f"{DMRGF}::DMRG.form_local_ops"
+    floor = 40
+
+    def cases(self):
+        return [NS(name=f"ham_dense={d},norm_dense={n}", dense=d, ndense=n) for d in (None, True, False)
+                for n in (None, True, False)]
+
+    def case_of_call(self, cx, a):
+        return NS(name="call", dense=None, ndense=None)
+
+    def mk_inputs(self, cx, case):
+        opts = {"local_eig_ham_dense": case.dense, "local_eig_norm_dense": case.ndense,
+                "periodic_nullspace_fudge_factor": cx.Opaque("fudge"), "periodic_orthog_tol": cx.Real("tol")}
+        s = self.new_solver(cx, opts=opts)
+        S = cx.fields(s)
+        i = cx.Int("i")
+        lix = IndsV([("inds", S["_b"].oid, i, None)])
+        uix = IndsV([("inds", S["_k"].oid, i, None)])
+        return with_cx(cx, dict(self=s, i=i, dims=DimsV(uix.atoms), lix=lix, uix=uix))
+
+    def requires_cx(self, cx, a, case):
+        S = cx.pre(a.self)
+        return {"lix-are-bra-labels": owned_by(a.lix, S["_b"]), "uix-are-ket-labels": owned_by(a.uix, S["_k"]),
+                "lix-and-uix-correspond-leg-by-leg": atoms_eq(twin(a.lix, S["_b"], S["_k"]), a.uix)
+                if isinstance(a.lix, IndsV) else False,
+                "dims-are-the-dimensions-of-uix": atoms_eq(a.dims, a.uix)}
+
+    def fresh_result(self, cx, a, case):
+        H = LocalOp("ham", a.lix, a.uix, "dense-or-linop", a.dims, a.dims)
+        N = LocalOp("norm", a.lix, a.uix, "dense-or-linop", a.dims, a.dims)
+        f = cx.fields(a.self)
+        f["_eff_ham"] = EffNet("ham")
+        # Neff is None on open chains (and on pseudo-orthogonal periodic sites)
+        if isinstance(f["cyclic"], bool) and not f["cyclic"]:
+            return (H, None)
+        return (H, N if cx.decide(And(f["cyclic"], cx.Bool("site_not_orthogonal")), None) else None)
+
+    def op_ok(self, d, tag, op, kind, a):
+        d[f"{tag}-is-the-effective-{kind}"] = isinstance(op, LocalOp) and op.kind == kind
+        if isinstance(op, LocalOp):
+            d[f"{tag}:rows-are-lix(bra-labels)"] = atoms_eq(op.rows, a.lix)
+            d[f"{tag}:columns-are-uix(ket-labels)"] = atoms_eq(op.cols, a.uix)
+            if op.form == "linop":
+                d[f"{tag}:linear-operator-dimensions"] = And(atoms_eq(op.ldims, a.dims), atoms_eq(op.rdims, a.dims))
+
+    def ensures(self, a, r, cx, case):
+        d = {"returns-(Heff,Neff)": isinstance(r, tuple) and len(r) == 2}
+        if not d["returns-(Heff,Neff)"]:
+            return d
+        self.op_ok(d, "Heff", r[0], "ham", a)
+        cyc = cx.fields(a.self)["cyclic"]
+        if r[1] is None:
+            pass  # open chain, or pseudo-orthogonal site
+        else:
+            d["Neff-only-on-periodic-chains"] = cyc
+            self.op_ok(d, "Neff", r[1], "norm", a)
+        return d
+
+
+@register
+class FormLocalOpsX(LocalContract):
+    """DMRGX.form_local_ops: dense Heff with ROWS = lix, COLUMNS = uix"""
+
+    target = f"{DMRGF}::DMRGX.form_local_ops"
+    floor = 3
+
+    def mk_inputs(self, cx, case):
+        return FormLocalOps.mk_inputs(self, cx, NS(dense=True, ndense=None))
+
+    def requires_cx(self, cx, a, case):
+        return FormLocalOps.requires_cx(self, cx, a, case)
+
+    def ensures(self, a, r, cx, case):
+        d = {}
+        FormLocalOps.op_ok(self, d, "Heff", r, "ham", a)
+        return d
+
+
+@register
+class UpdateLocal1(LocalContract):
+    """_update_local_state_1site: the eigensolver receives Heff with rows = labels of the BRA tensor and columns = labels
+    of the KET tensor (leaf obligations of _eigs), the new ket data is stored in the ket's axis order and the bra gets its
+    element-wise conjugate (the same array up to the final normalisation, which divides both by the same number)"""
+
+    target = f"{DMRGF}::DMRG._update_local_state_1site"
+    floor = 15
+
+    def mk_inputs(self, cx, case):
+        return with_cx(cx, dict(self=self.new_solver(cx), i=cx.Int("i"), direction="right", compress_opts={}))
+
+    def final(self, cx, a, which):
+        S = cx.fields(a.self)
+        return cx.ghost.get("data", {}).get((S[which].oid, str(a.i)))
+
+    def ensures(self, a, r, cx, case):
+        S = cx.fields(a.self)
+        eigs = [e for e in cx.events if e[0] == "eigs"]
+        d = {"exactly-one-local-eigenproblem": len(eigs) == 1}
+        k, b = self.final(cx, a, "_k"), self.final(cx, a, "_b")
+        d["ket-and-bra-tensors-updated"] = isinstance(k, Dat) and isinstance(b, Dat)
+        if not d["ket-and-bra-tensors-updated"] or not eigs:
+            return d
+        d["bra-is-the-conjugate-of-the-new-ket"] = And(k.base == b.base, (not k.conj) and b.conj)
+        d["ket-data-comes-from-the-eigenvector"] = self.from_eigenvector(k.base)
+        d["ket-data-stored-in-the-ket's-axis-order"] = atoms_eq(k.axes, IndsV([("inds", S["_k"].oid, a.i, None)]))
+        d["bra-data-stored-in-the-bra's-axis-order"] = atoms_eq(b.axes, IndsV([("inds", S["_b"].oid, a.i, None)]))
+        return d
+
+    @staticmethod
+    def from_eigenvector(base):
+        return "loc_gs" in str(base)
+
+
+class TensorV:
+    def __init__(self, dat, inds):
+        self.dat, self.inds = dat, inds
+
+
+@register
+class Parse2Site(LocalContract):
+    """parse_2site_inds_dims(k, b, i): uix / dims from the KET tensors i, i+1 without the ket's bond (i, i+1), lix from
+    the BRA tensors without the bra's bond, all in the order (site i, site i+1)"""
+
+    target = f"{DMRGF}::parse_2site_inds_dims"
+    floor = 9
+
+    def mk_inputs(self, cx, case):
+        k = new_vec(cx, "k", conj=z3.BoolVal(False))
+        return with_cx(cx, dict(k=k, b=copy_obj(cx, k, flip=True), i=cx.Int("i")))
+
+    def tn_method(self, cx, m, tn, args, kwargs, node):
+        if m == "bond":
+            lo, hi = args
+            cx.oblige(f"bond@{node.lineno}:neighbouring-sites", "call-pre", hi == lo + 1, node.lineno)
+            return IndsV([("bond", tn.oid, lo)])
+        return super().tn_method(cx, m, tn, args, kwargs, node)
+
+    def call(self, cx, name, args, kwargs, node):
+        if name == "zip" and len(args) == 2 and isinstance(args[0], DimsV) and isinstance(args[1], IndsV):
+            if len(args[0].atoms) != 1 or not definitely(atom_eq(args[0].atoms[0], args[1].atoms[0])):
+                raise Unsupported("zip of the shape and inds of different tensors")
+            return ZipDI(args[1].atoms[0])
+        if name == "zip" and len(args) == 1 and isinstance(args[0], StarArg) and isinstance(args[0].value, ZipDI):
+            at = args[0].value.atom
+            return (DimsV([at]), IndsV([at]))
+        if name == "tuple" and len(args) == 1 and isinstance(args[0], IndsV):
+            return args[0]
+        if name == "__genexp__":
+            n = args[0]
+            if len(n.generators) != 1 or len(n.generators[0].ifs) != 1:
+                return NotImplemented
+            g = n.generators[0]
+            it = cx.ev(g.iter)
+            cond = g.ifs[0]
+            if not (isinstance(cond, ast.Compare) and len(cond.ops) == 1 and isinstance(cond.ops[0], ast.NotEq)
+                    and isinstance(cond.left, ast.Name)):
+                return NotImplemented
+            names = [t.id for t in (g.target.elts if isinstance(g.target, ast.Tuple) else [g.target])]
+            # (the filter expression is evaluated in the enclosing scope: it names a bond label, not a loop variable)
+            if isinstance(cond.comparators[0], ast.Name) and cond.comparators[0].id in names:
+                return NotImplemented
+            excl = cx.ev(cond.comparators[0])
+            if not (isinstance(excl, IndsV) and len(excl.atoms) == 1 and excl.atoms[0][0] == "bond"):
+                raise Unsupported("filter on something that is not a bond label")
+            if isinstance(it, ZipDI) and len(names) == 2 and cond.left.id == names[1] and \
+                    ast.unparse(n.elt) == f"({names[0]}, {names[1]})":
+                at = it.atom
+                return ZipDI((at[0], at[1], at[2], excl.atoms[0]))
+            if isinstance(it, IndsV) and len(it.atoms) == 1 and len(names) == 1 and cond.left.id == names[0] and \
+                    ast.unparse(n.elt) == names[0]:
+                at = it.atoms[0]
+                return IndsV([(at[0], at[1], at[2], excl.atoms[0])])
+            return NotImplemented
+        return super().call(cx, name, args, kwargs, node)
+
+    def fresh_result(self, cx, a, case):
+        return self.expected(a)
+
+    def expected(self, a):
+        k, b, i = a.k, a.b, a.i
+        ub, lb = ("bond", k.oid, i), ("bond", b.oid, i)
+        kL, kR = ("inds", k.oid, i, ub), ("inds", k.oid, i + 1, ub)
+        bL, bR = ("inds", b.oid, i, lb), ("inds", b.oid, i + 1, lb)
+        return (DimsV([kL, kR]), IndsV([bL]), IndsV([bR]), IndsV([bL, bR]), IndsV([kL]), IndsV([kR]), IndsV([kL, kR]),
+                IndsV([lb]), IndsV([ub]))
+
+    NAMES = ("dims", "lix_L", "lix_R", "lix", "uix_L", "uix_R", "uix", "l_bond_ind", "u_bond_ind")
+    WHAT = ("ket-dimensions-of-(i,i+1)-without-the-ket-bond", "bra-labels-of-site-i", "bra-labels-of-site-i+1",
+            "bra-labels-of-(i,i+1)", "ket-labels-of-site-i", "ket-labels-of-site-i+1", "ket-labels-of-(i,i+1)",
+            "the-bra-bond", "the-ket-bond")
+
+    def ensures(self, a, r, cx, case):
+        d = {"returns-the-9-tuple": isinstance(r, tuple) and len(r) == 9}
+        if not d["returns-the-9-tuple"]:
+            return d
+        for nm, what, got, exp in zip(self.NAMES, self.WHAT, r, self.expected(a)):
+            d[f"{nm}-is-{what}"] = type(got) is type(exp) and atoms_eq(got, exp)
+        return d
+
+
+@register
+class UpdateLocal2(LocalContract):
+    """_update_local_state_2site: Heff rows = bra labels, columns = ket labels (leaf obligations of _eigs, through the
+    proved contracts of parse_2site_inds_dims and form_local_ops); the two-site vector is reshaped in the ket's label order,
+    split, and the factors stored on the ket with the ket's labels and -- conjugated -- on the bra with the BRA's labels"""
+
+    target = f"{DMRGF}::DMRG._update_local_state_2site"
+    floor = 25
+
+    def cases(self):
+        return [NS(name=f"direction={d}", direction=d) for d in ("right", "left")]
+
+    def mk_inputs(self, cx, case):
+        return with_cx(cx, dict(self=self.new_solver(cx), i=cx.Int("i"), direction=case.direction, compress_opts={}))
+
+    def call(self, cx, name, args, kwargs, node):
+        if name == ".contract" and isinstance(args[0], Handle) and isinstance(args[1], Handle):
+            return NS(two_site=(args[0], args[1]))
+        if name == ".to_dense" and isinstance(args[0], NS) and "two_site" in args[0]:
+            h0, h1 = args[0].two_site
+            ub = ("bond", h0.net.oid, h0.site)
+            full = IndsV([("inds", h0.net.oid, h0.site, ub), ("inds", h1.net.oid, h1.site, ub)])
+            cx.oblige(f"to_dense@{node.lineno}:the-open-labels-of-the-two-site-tensor", "call-pre",
+                      And(h1.site == h0.site + 1, atoms_eq(args[1], full)) if h0.net == h1.net else False, node.lineno)
+            d0, d1 = self.data_of(cx, h0), self.data_of(cx, h1)
+            return Dat(cx.uf("contract2", [d0.base, d1.base]), d0.conj, args[1], True)
+        if name == "Tensor":
+            dat, inds = args
+            cx.oblige(f"Tensor@{node.lineno}:data-axes-are-the-given-labels", "call-pre",
+                      isinstance(dat, Dat) and atoms_eq(dat.axes, inds), node.lineno)
+            return TensorV(dat, inds)
+        if name == ".split" and isinstance(args[0], TensorV):
+            t = args[0]
+            li, ri = kwargs.get("left_inds"), kwargs.get("right_inds")
+            cx.oblige(f"split@{node.lineno}:left-and-right-labels-partition-the-tensor", "call-pre",
+                      atoms_eq(IndsV(li.atoms + ri.atoms), t.inds) if isinstance(li, IndsV) and isinstance(ri, IndsV) else False,
+                      node.lineno)
+            cx.oblige(f"split@{node.lineno}:arrays-requested-and-absorb-follows-the-sweep", "call-pre",
+                      kwargs.get("get") == "arrays" and kwargs.get("absorb") == cx.env["direction"], node.lineno)
+            new = ("newbond",)
+            return (Dat(cx.uf("splitL", [t.dat.base]), t.dat.conj, (li, new)),
+                    Dat(cx.uf("splitR", [t.dat.base]), t.dat.conj, (new, ri)))
+        if name == ".modify" and isinstance(args[0], Handle) and isinstance(kwargs.get("data"), Dat) and \
+                isinstance(kwargs["data"].axes, tuple):
+            h, dat, inds = args[0], kwargs["data"], kwargs.get("inds")
+            cx.events.append(("modify2", h, dat, inds))
+            return None
+        return super().call(cx, name, args, kwargs, node)
+
+    def ensures(self, a, r, cx, case):
+        S = cx.fields(a.self)
+        k, b, i = S["_k"], S["_b"], a.i
+        eigs = [e for e in cx.events if e[0] == "eigs"]
+        mods = [e for e in cx.events if e[0] == "modify2"]
+        d = {"exactly-one-local-eigenproblem": len(eigs) == 1, "four-tensors-updated": len(mods) == 4}
+        if len(mods) != 4 or not eigs:
+            return d
+        exp = REGISTRY[Parse2Site.target].expected(NS(k=k, b=b, i=i))
+        _, lix_L, lix_R, _, uix_L, uix_R, _, lb, ub = exp
+        want = {("k", 0): (k, i, False, "splitL", (uix_L, ub)), ("b", 0): (b, i, True, "splitL", (lix_L, lb)),
+                ("k", 1): (k, i + 1, False, "splitR", (ub, uix_R)), ("b", 1): (b, i + 1, True, "splitR", (lb, lix_R))}
+        for (who, pos), (net, site, conj, fac, order) in want.items():
+            tag = f"{'ket' if who == 'k' else 'bra'}[i{'+1' if pos else ''}]"
+            ev = [e for e in mods if e[1].net == net and z3.is_true(z3.simplify(e[1].site == site))]
+            d[f"{tag}-updated-once"] = len(ev) == 1
+            if len(ev) != 1:
+                continue
+            _, h, dat, inds = ev[0]
+            d[f"{tag}-gets-the-{'conjugated ' if conj else ''}{'left' if fac == 'splitL' else 'right'}-factor"] = \
+                dat.conj == conj and str(dat.base).startswith(fac) and "loc_gs" in str(dat.base)
+            first, second = order
+            exp_inds = IndsV(first.atoms + second.atoms)
+            d[f"{tag}-labels-are-its-own-in-factor-order"] = atoms_eq(inds, exp_inds)
+            # the factor's axes (labels of the split tensor + the new bond) match the labels position by position
+            kept = dat.axes[0] if fac == "splitL" else dat.axes[1]
+            own = first if fac == "splitL" else second
+            d[f"{tag}-axes-correspond-to-the-labels"] = And(
+                atoms_eq(twin(kept, k, net), own),
+                (dat.axes[1] == ("newbond",)) if fac == "splitL" else (dat.axes[0] == ("newbond",)))
+        return d
+
+
+LocalContract.dmrg_methods = {"form_local_ops": FormLocalOps.target}
